@@ -174,6 +174,20 @@ CHECKS = {
             'generator and user subclasses; all interleavings of two live generators.',
             'Trusted: the counter reference. For UUID generators only non-null, distinct, fresh and consistent-with-peek are checked.',
             'DESIGN.md section 5, C19'),
+    'C12': ('enumerator',
+            'bounded exhaustive enumeration of strings, token sequences, single-token edits, statement-unit sequences, pumped inputs (hard-kill CPU budget) and loader histories on the real loader',
+            'Every string of length <= 3 (thorough 4) over 30 characters; every token sequence of length <= 3 over all 27 token '
+            'kinds plus length 4 over 22 (thorough <= 4 over 27 plus 5 over 19); for 41 (360) generated valid files every token '
+            'deletion, duplication, adjacent swap, eight lexical-class flips per value and every truncation; all sequences of <= 3 '
+            '(4) well-formed statement units referring to known and unknown classes, attributes, types and arities; pumped inputs '
+            'in disposable processes: ModelLoader.input returns or raises ParsingException, build_metamodel returns or raises '
+            'ParsingException or a MetaException, nothing else, in bounded time. Histories: all sequences of <= 4 (5) inputs '
+            'over three accepted and three rejected texts with every build placement: a deep snapshot of loader.statements is '
+            'unchanged after a rejection, every build equals (xtuml.serialize) the build of a fresh loader fed only the '
+            'accepted texts, and every accept/reject outcome equals that of the fresh loader.',
+            'Trusted: the differential oracle against fresh loaders; the time verdict is taken on CPU seconds of the child with '
+            'double confirmation in a fresh process.',
+            'DESIGN.md section 5, C12; 3.5'),
 }
 
 NOT_YET = 'check not built yet in this revision (planned, see DESIGN.md section 5); not claimed until it exists'
